@@ -392,6 +392,23 @@ Theorem dash_underscore_collide :
   impl_key "--a-b" = impl_key "--a_b" /\ "--a-b" <> "--a_b".
 Proof. split; [reflexivity|discriminate]. Qed.
 
+Theorem var_refuted :
+  (let env := fun k => if String.eqb k "__x" then [VAR "--x" []] else [] in
+   forall fuel, resolve_var env fuel (VAR "--x" []) = None) /\
+  (let env := fun k => if String.eqb k "__a" then [TAtom 5] else [] in
+   let t := TFunc "calc" "calc" [VAR "--a" []; TFunc "max" "max" [TAtom 1]] in
+   (forall fuel, resolve_var env (S (S (S fuel))) t = Some RTypeError) /\
+   Subst env impl_key impl_fallback impl_var_name t [TFunc "calc" "calc" [TAtom 5; TFunc "max" "max" [TAtom 1]]]) /\
+  (let env := fun _ : string => @nil tok in
+   let args := [TIdent "--u" "--u"; TLit ","; TWs; TIdent "a" "a"; TLit ","; TWs; TIdent "b" "b"] in
+   resolve_var env 2 (TFunc "var" "var" args) = Some (RToks [TIdent "a" "a"; TIdent "b" "b"]) /\
+   css_fallback args = [TIdent "a" "a"; TLit ","; TIdent "b" "b"]) /\
+  (impl_key "--a-b" = impl_key "--a_b" /\ "--a-b" <> "--a_b").
+Proof.
+  split; [exact cycle_diverges|]. split; [exact plain_function_argument_raises|].
+  split; [exact fallback_commas_lost|exact dash_underscore_collide].
+Qed.
+
 (* the hypotheses of the sufficiency theorem are satisfiable: --a: var(--b) 1 ; --b: 2 *)
 Example ranked_example :
   let env := fun k => if String.eqb k "__a" then [VAR "--b" []; TAtom 1]
